@@ -181,7 +181,8 @@ def make(ctx, newick):
 
 
 IN_PLACE = {"Prune"}
-OBSERVE_ONLY = {"Bifurcating"}
+OBSERVE_ONLY = {"Bifurcating", "Query"}
+PLAIN_ONLY_ACTS = {"Query"}
 
 
 def call(ctx, act, args):
@@ -235,4 +236,103 @@ def call(ctx, act, args):
         return t
     if act == "Bifurcating":
         return t.bifurcating()
+    if act == "Query":
+        return t  # read-only calls on the tree itself (made by query())
     raise ValueError(act)
+
+
+# ----------------------------------------------------------------- read-only queries (TreeOps.Query)
+def _h(x):
+    """real length -> half units (exact for the dyadic lengths used)."""
+    x2 = 2 * float(x)
+    return int(x2) if x2 == int(x2) else x2
+
+
+def canon_query(exp):
+    """Canonical form of one emitted QueryExp part."""
+    conv = {
+        "nodedist": lambda x: {f"{u}|{v}": d for u, v, d in x},
+        "lcaset": lambda x: {",".join(sorted(S)): w for S, w in x},
+        "lca2": lambda x: {f"{u}|{v}": w for u, v, w in x},
+        "conn": lambda x: {f"{u}|{v}": list(p) for u, v, p in x},
+        "edgenames": lambda x: {f"{a}|{b}|{o}": {"clade": sorted(en["clade"]), "stem": en["stem"]} for a, b, o, en in x},
+        "enddist": lambda x: {",".join(sorted(S)): {f"{a}|{b}": d for a, b, d in ds} for S, ds in x},
+        "maxdist": lambda x: x,
+        "farpairs": lambda x: sorted(sorted(p) for p in x),
+        "sametopo": lambda x: {f"{a}|{b}": v for a, b, v in x},
+    }
+    out = {k: conv[k](v) for k, v in exp.items()}
+    if "maxdist" in out:  # two real calls answer this: max_tip_tip_distance and get_max_tip_tip_distance
+        out["gmaxdist"] = out["maxdist"]
+        out["gfarpairs"] = out["farpairs"]
+    return out
+
+
+def query(ctx, tree, want):
+    """Ask the real tree everything the spec's Query record answers (same keys as `want`)."""
+    from cogent3.core.tree import TreeError
+
+    names = {}
+    for node in tree.traverse():
+        names[id(node)] = ROOT if node is tree else ctx.inv.get(node.name, NEW if node.children else f"?{node.name!r}")
+    byname = {v: n for n, v in ((n, names[id(n)]) for n in tree.traverse())}
+    nm = lambda node: names.get(id(node), f"?{getattr(node, 'name', node)!r}")
+    real = lambda spec: tree.name if spec == ROOT else ctx.name(spec)
+    out = {}
+    W = lambda k: want.get(k, {})
+    out["nodedist"] = {}
+    for key in W("nodedist"):
+        u, v = key.split("|")
+        out["nodedist"][key] = _h(byname[u].distance(byname[v]))
+    out["lcaset"] = {}
+    for key in W("lcaset"):
+        out["lcaset"][key] = nm(tree.lowest_common_ancestor([ctx.name(t) for t in key.split(",")]))
+    out["lca2"] = {}
+    for key in W("lca2"):
+        u, v = key.split("|")
+        out["lca2"][key] = nm(tree.get_connecting_node(real(u), real(v)))
+    out["conn"] = {}
+    for key in W("conn"):
+        u, v = key.split("|")
+        try:
+            out["conn"][key] = [nm(n) for n in tree.get_connecting_edges(real(u), real(v))]
+        except Exception as ex:
+            out["conn"][key] = f"raises:{type(ex).__name__}"
+    out["edgenames"] = {}
+    for key in W("edgenames"):
+        a, b, o = key.split("|")
+        og = None if o == "none" else ctx.name(o)
+        # names of the (possibly re-rooted) temporary tree are the same strings
+        inv = lambda n: ROOT if n == "root" and "root" not in ctx.inv else ctx.inv.get(n, NEW)
+        clade = sorted(inv(n) for n in tree.get_edge_names(ctx.name(a), ctx.name(b), clade=True, stem=False, outgroup_name=og))
+        try:
+            stem = [inv(n) for n in tree.get_edge_names(ctx.name(a), ctx.name(b), clade=False, stem=True, outgroup_name=og)]
+            stem = stem[0] if len(stem) == 1 else stem
+        except TreeError:
+            stem = "!root"  # documented: the common ancestor is the root and has no stem
+        out["edgenames"][key] = {"clade": clade, "stem": stem}
+    out["enddist"] = {}
+    for key in W("enddist"):
+        S = [ctx.name(t) for t in key.split(",")]
+        d = {f"{ctx.inv.get(a, a)}|{ctx.inv.get(b, b)}": _h(x) for (a, b), x in tree.get_distances(endpoints=S).items()}
+        mat, order = tree.tip_to_tip_distances(endpoints=S)
+        onames = [ctx.inv.get(n.name, n.name) for n in order]
+        d2 = {f"{a}|{b}": _h(mat[i, j]) for i, a in enumerate(onames) for j, b in enumerate(onames) if i != j}
+        out["enddist"][key] = d if d == d2 else {"get_distances": d, "tip_to_tip_distances": d2}
+    if "maxdist" in want:
+        dist, pair = tree.max_tip_tip_distance()
+        dist2, pair2, node = tree.get_max_tip_tip_distance()
+        p1 = sorted(ctx.inv.get(n, n) for n in pair)
+        p2 = sorted(ctx.inv.get(n, n) for n in pair2)
+        out["maxdist"] = _h(dist)
+        out["gmaxdist"] = _h(dist2)
+        # each call names ONE farthest pair: it must be one of the spec's
+        out["farpairs"] = want["farpairs"] if p1 in want["farpairs"] else p1
+        out["gfarpairs"] = want["farpairs"] if p2 in want["farpairs"] else p2
+    out["sametopo"] = {}
+    for key in W("sametopo"):
+        a, b = key.split("|")
+        other = tree.copy()
+        other.reassign_names({ctx.name(a): ctx.name(b), ctx.name(b): ctx.name(a)})
+        out["sametopo"][key] = bool(tree.same_topology(other))
+    return {k: v for k, v in out.items() if k in want}
